@@ -575,6 +575,7 @@ type Contract struct {
 	Trusted    bool
 	MayPanic   bool
 	NoSafety   bool // skip implicit panic obligations (stated in evidence)
+	Interference bool // acquiring a mutex havocs the fields it guards (other goroutines ran)
 	AssumePre  bool // callee preconditions are assumed, not proved, in this function (stated in evidence)
 	Wraps      bool // signed +,- wrap exactly (no overflow obligations)
 	Pure       bool // (assumed contracts) deterministic function of the argument values
@@ -640,7 +641,7 @@ type UFDecl struct {
 
 var clauseKeywords = map[string]bool{"ghoststruct": true, "guarded": true, "uf": true, "pred": true,"func": true, "lemma": true, "interface": true, "property": true, "mode": true,
 	"requires": true, "ensures": true, "assert": true, "bind": true, "modifies": true, "inline": true, "trusted": true, "loop": true, "invariant": true,
-	"decreases": true, "maypanic": true, "forall": false, "ghost": true, "method": true, "assume": true, "vars": true, "nosafety": true, "assumepre": true, "pure": true, "witness": true, "wraps": true,
+	"decreases": true, "maypanic": true, "forall": false, "ghost": true, "method": true, "assume": true, "vars": true, "nosafety": true, "assumepre": true, "interference": true, "pure": true, "witness": true, "wraps": true,
 	"atomic": true, "rely": true, "guarantee": true, "addassume": true}
 
 // LoadSpecs reads every verif_contracts.go under the repo plus the assumed
@@ -720,7 +721,25 @@ func (db *SpecDB) loadFile(path, pkg string, assumed bool) error {
 		txt := rc.rest
 		name := ""
 		if strings.HasPrefix(txt, "[") {
-			if k := strings.Index(txt, "]"); k > 0 {
+			// the label ends at the bracket that closes the opening one (anchors may
+			// contain balanced brackets: [l @ p.store[key] = e]); if the brackets of the
+			// label are not balanced, at the first closing bracket as before
+			k, depth := -1, 0
+			for i, c := range txt {
+				if c == '[' {
+					depth++
+				} else if c == ']' {
+					depth--
+					if depth == 0 {
+						k = i
+						break
+					}
+				}
+			}
+			if k < 0 || !strings.Contains(txt[:k], "@") {
+				k = strings.Index(txt, "]")
+			}
+			if k > 0 {
 				name = txt[1:k]
 				txt = strings.TrimSpace(txt[k+1:])
 			}
@@ -998,6 +1017,10 @@ func (db *SpecDB) loadFile(path, pkg string, assumed bool) error {
 		case "assumepre":
 			if curC != nil {
 				curC.AssumePre = true
+			}
+		case "interference":
+			if curC != nil {
+				curC.Interference = true
 			}
 		case "wraps":
 			if curC != nil {
